@@ -87,6 +87,9 @@ pub struct Cfg {
     /// restricted system: once the signal arrived or the run returned an error no script ends by itself
     #[serde(default)]
     pub freeze_after_exit_begins: bool,
+    /// a failing script dies of a signal instead of exiting with a non-zero code
+    #[serde(default)]
+    pub fail_by_signal: bool,
 }
 
 impl Cfg {
@@ -142,6 +145,12 @@ impl Cfg {
         }
         if !self.armed.is_empty() {
             s += &format!(" armed={:?}", self.armed);
+        }
+        if self.fail_by_signal {
+            s += " fail_by_signal";
+        }
+        if self.real_incremental {
+            s += " real_incremental";
         }
         s
     }
@@ -256,6 +265,9 @@ pub struct Sys {
     pub spawn_inputs: BTreeMap<usize, Vec<(usize, String)>>,
     pub scratch: Option<std::path::PathBuf>,
     pub polls: u64,
+    /// number of events logged when the system was last message-quiescent (nothing queued, nothing in flight)
+    pub quiescent_at: usize,
+    /// true: a failing script is killed by a signal instead of exiting non-zero
     snapshotted_spawns: usize,
     pub applied: Vec<Action>,
 }
@@ -386,6 +398,7 @@ impl Sys {
             spawn_inputs: BTreeMap::new(),
             scratch,
             polls: 0,
+            quiescent_at: 0,
             snapshotted_spawns: 0,
             applied: vec![],
         };
@@ -709,7 +722,7 @@ impl Sys {
                 let mut i = self.w.inner.lock().unwrap();
                 let mut cs = c.lock().unwrap();
                 assert!(cs.info.status.is_none());
-                cs.info.status = Some(code << 8);
+                cs.info.status = Some(if *code != 0 && self.cfg.fail_by_signal { 9 } else { code << 8 });
                 if let Some(w) = cs.waker.take() {
                     w.wake()
                 }
@@ -789,6 +802,15 @@ impl Sys {
             }
         }
         self.snapshotted_spawns = self.w.inner.lock().unwrap().children.len();
+        if self.message_quiescent() {
+            self.quiescent_at = self.events_len();
+        }
+    }
+
+    /// nothing queued anywhere, nobody inside a handler
+    pub fn message_quiescent(&self) -> bool {
+        let i = self.w.inner.lock().unwrap();
+        self.q_rx.len() == 0 && self.stage_tx.is_empty() && i.send_gate.is_empty() && i.sending.is_empty() && self.pending_notifs.is_empty() && i.pumps.values().all(|p| (p.len)() == 0)
     }
 
     pub fn effective_inputs(&self, t: &str) -> Vec<usize> {
